@@ -86,14 +86,20 @@ Proof.
   - fold (with_dur c l). rewrite IH. cbn [record_one st_samples]. rewrite <- app_assoc. reflexivity.
 Qed.
 
-Lemma record_one_counts c size l : forall sto,
-  length (st_counts (fold_left (record_one c size) (with_dur c l) sto)) =
-  (length (st_counts sto) + (if c_input_counts c then length l else 0))%nat.
+Lemma qget_qmap3 {A B C D} (f : A -> B -> C -> D) a b c k :
+  qget k (qmap3 f a b c) = f (qget k a) (qget k b) (qget k c).
+Proof. destruct k; reflexivity. Qed.
+
+(** Per counter kind: the counts are those of the recorded samples, in order. *)
+Lemma record_one_counts c size k l : forall sto,
+  qget k (st_counts (fold_left (record_one c size) (with_dur c l) sto)) =
+  qget k (st_counts sto) ++
+  (if qget k (c_input_counts c) then map (fun r => (qget k (r_ctotal r) / size) mod 2 ^ 64) l else []).
 Proof.
   induction l as [|r l IH]; intros sto; cbn [with_dur map fold_left].
-  - destruct (c_input_counts c); cbn [length]; lia.
-  - fold (with_dur c l). rewrite IH. cbn [record_one st_counts].
-    destruct (c_input_counts c); [rewrite app_length|]; cbn [length]; lia.
+  - destruct (qget k (c_input_counts c)); rewrite app_nil_r; reflexivity.
+  - fold (with_dur c l). rewrite IH. cbn [record_one st_counts]. rewrite qget_qmap3.
+    destruct (qget k (c_input_counts c)); [|reflexivity]. rewrite <- app_assoc. reflexivity.
 Qed.
 
 (** * Declarative reading: snoc lemmas *)
@@ -373,7 +379,7 @@ Proof.
     assert (Hm : mode_of c pre = MCollect s) by (unfold mode_of; rewrite Es; reflexivity).
     rewrite (tune_branch_collect c _ _ s) in H by (cbn [with_round s_mode spec_state]; exact Hm).
     cbn [bind] in H.
-    destruct (c_input_counts c && (size =? 0)); [discriminate|].
+    destruct (qany (c_input_counts c) && (size =? 0)); [discriminate|].
     cbn [with_round spec_state s_store s_rem s_mode s_elapsed s_size s_sizes] in H.
     rewrite record_fold in H.
     match type of H with (do el <- ?X; _) = _ => destruct X as [el|p] eqn:Ee end; cbn [bind] in H; [|discriminate].
@@ -392,7 +398,7 @@ Proof.
       assert (Hm : mode_of c pre = MCollect (pow2 j0)) by (unfold mode_of; rewrite Es, Ef; reflexivity).
       rewrite (tune_branch_collect c _ _ (pow2 j0)) in H by (cbn [with_round s_mode spec_state]; exact Hm).
       cbn [bind] in H.
-      destruct (c_input_counts c && (size =? 0)); [discriminate|].
+      destruct (qany (c_input_counts c) && (size =? 0)); [discriminate|].
       cbn [with_round spec_state s_store s_rem s_mode s_elapsed s_size s_sizes] in H.
       rewrite record_fold in H.
       match type of H with (do el <- ?X; _) = _ => destruct X as [el|p] eqn:Ee end; cbn [bind] in H; [|discriminate].
@@ -414,7 +420,7 @@ Proof.
         cbn [bind] in H; [|discriminate].
       apply (tune_branch_tune c _ _ (pow2 (length pre))) in Etb; [|cbn [with_round s_mode spec_state]; exact Hm].
       rewrite (prec_used_tuned c Ht Es) in Etb. destruct Etb as [Hp0 Hcases].
-      destruct (c_input_counts c && (size =? 0)); [discriminate|].
+      destruct (qany (c_input_counts c) && (size =? 0)); [discriminate|].
       assert (Hsz : size = pow2 (length pre)) by (rewrite Hsize, Hm; reflexivity).
       destruct Hcases as [[Hle [Hov Hst1]]|[Hgt Hst1]]; subst st1;
         cbn [with_round spec_state s_store s_rem s_mode s_elapsed s_size s_sizes] in H;
